@@ -109,6 +109,13 @@ pub fn constant_sources() -> Vec<(String, String)> {
         "AnyAsset(0x11111111111111111111111111111111111111111111111111111111, \"A\", 1) + AnyAsset(0x22222222222222222222222222222222222222222222222222222222, \"B\", 2) + AnyAsset(0x33333333333333333333333333333333333333333333333333333333, \"C\", 3) - AnyAsset(0x44444444444444444444444444444444444444444444444444444444, \"D\", 4)",
     ];
     let mut out = vec![];
+    // references written as lists: two or three outputs of one transaction, outputs of different transactions, one twice
+    let r = |b: u8, i: u32| format!("0x{}#{i}", format!("{b:02x}").repeat(32));
+    for (k, list) in [vec![r(1, 0), r(1, 1)], vec![r(1, 1), r(1, 0), r(1, 2)], vec![r(2, 0), r(1, 0)], vec![r(1, 0), r(1, 0)], vec![r(1, 5), r(2, 5), r(1, 4), r(2, 4)]].iter().enumerate() {
+        let l = list.join(", ");
+        let src = format!("{defs}tx t(quantity: Int) {{\n    input source {{\n        from: Sender,\n        min_amount: Ada(quantity) + fees,\n        ref: [{l}],\n    }}\n    reference shared {{\n        ref: [{l}],\n    }}\n    collateral {{\n        ref: [{l}],\n    }}\n    output {{\n        to: Receiver,\n        amount: source - fees,\n    }}\n}}\n");
+        out.push((format!("gen-ref-lists-{k}"), src));
+    }
     for (k, e) in exprs.iter().enumerate() {
         for place in 0..4 {
             let (min_amount, mint, burn, pay) = match place {
@@ -265,6 +272,18 @@ pub fn run_c11(opts: &Opts, out: &mut Emitter) {
             t.mints.push(tir::Mint { amount: E::None, redeemer: e });
             out.case("length-sweep", || json!({"probe": "roundtrip", "origin": format!("{what}:{len}"), "tx": tx_json(&t), "obs": roundtrip_obs(&t)}));
         }
+    }
+    // amount sweep: resolved UTxOs (what the input stage puts into a template) holding quantities at the edges of the
+    // 64- and 128-bit ranges - the ledger's own quantities reach 2^64 - 1 - under one and under several classes
+    for v in [0i128, 1, -1, (1 << 63) - 1, 1 << 63, 10_000_000_000_000_000_000, (1 << 64) - 1, 1 << 64, 3 * ((1i128 << 64) - 1), -(1 << 63), -(1 << 63) - 1, i128::MAX, i128::MIN] {
+        use tx3_tir::model::assets::CanonicalAssets;
+        use tx3_tir::model::core::{Utxo, UtxoRef};
+        let assets = CanonicalAssets::from_naked_amount(v) + CanonicalAssets::from_defined_asset(&[0xaa; 28], b"TK", v) ;
+        let mut set = std::collections::HashSet::new();
+        set.insert(Utxo { r#ref: UtxoRef { txid: vec![5; 32], index: 1 }, address: vec![0x60; 29], assets, datum: None, script: None });
+        let mut t = empty_tx();
+        t.inputs.push(tir::Input { name: "source".into(), utxos: tir::Expression::UtxoSet(set), redeemer: tir::Expression::None });
+        out.case("amount-sweep", || json!({"probe": "roundtrip", "origin": format!("utxo-amount:{v}"), "tx": tx_json(&t), "obs": roundtrip_obs(&t)}));
     }
     // name sweep: every name the IR carries (value parameters, input queries, input blocks, custom types, directive
     // names and field keys) spelled in ways lowering never writes - capitals, mixed case, wide characters, spaces,
